@@ -28,6 +28,7 @@ void sym_inputs(void)
 #ifdef REPLAY
 #include "replay_inputs.inc"
 #else
+  SYM_FEED();
   SYM_ARR(in); SYM(errpos);
 #endif
 }
